@@ -544,6 +544,10 @@ def _file_meta(spec, o):
 
 
 def _report(run, cs, meta, clause, extra=None, model_disagrees=True):
+    if meta not in cs.metas:        # a large history lives in the one-case-per-file family
+        run.violation(f"{meta['kind']}-{meta['hash']}", {"clause": clause, "model_disagrees": model_disagrees, "input": meta["input"],
+                                                          "model_view": "omitted (large case)", "oracle_detail": extra})
+        return
     term = cs.terms[cs.metas.index(meta)]
     view = cs.model_view(term) if _size_of(meta["input"]) < 3000 else "omitted (large case)"
     rp = {"clause": clause, "model_disagrees": model_disagrees, "input": meta["input"], "observed": {k: v for k, v in meta.items() if k != "input"},
@@ -554,6 +558,7 @@ def _report(run, cs, meta, clause, extra=None, model_disagrees=True):
 
 
 MAX_REPORT = 6
+BIG_TERM = 60_000      # bytes of Coq literal above which a history gets a cases file of its own
 
 
 def _size_shards(cs, target=120_000):
@@ -580,7 +585,8 @@ def _correspondence(run, rng, tmpdir):
     specs = _corpus_specs()
     specs = [s for s in specs if s.get("kind") == "file"] + _pinned_specs()
     specs += [gen_file_spec(rng, quick) for _ in range(n_file)]
-    cs = core.Cases(ID, "file", HEADER, FILE_CTYPE, FILE_CHECK, show=FILE_SHOW, shard=(28 if quick else 60))
+    cs = core.Cases(ID, "file", HEADER, FILE_CTYPE, FILE_CHECK, show=FILE_SHOW, shard=28)
+    cbig = core.Cases(ID, "filebig", HEADER, FILE_CTYPE, FILE_CHECK, show=FILE_SHOW, shard=1)   # one coqc per large history
     seen, nontriv = set(), 0
     dist = {"rows": {}, "fields": {}, "ops": {}, "truncated": 0, "bs_divides": 0, "bs_not_divides": 0, "uint8_fields": 0,
             "multi_dim_fields": 0, "epochs_consumed": 0, "randperm_calls": 0}
@@ -602,7 +608,8 @@ def _correspondence(run, rng, tmpdir):
             crashes.append((spec, repr(e)))
             continue
         meta = _file_meta(spec, o)
-        cs.add(file_case_term(spec, o), meta)
+        term = file_case_term(spec, o)
+        (cbig if len(term) > BIG_TERM else cs).add(term, meta)
         h = meta["hash"]
         n = meta["rows"]
         bs = spec["batch_size"]
@@ -638,14 +645,18 @@ def _correspondence(run, rng, tmpdir):
             samples.append({"input": spec, "impl_batches": o["obs"], "randperm": [c[:4] for c in o["calls"]]})
     _size_shards(cs)
     failing, shard_fail, nshards = cs.run()
-    run.oblige(f"correspondence:file-dataset ({nshards} shards, {len(cs)} histories)", not shard_fail, str(shard_fail)[:1500])
+    if len(cbig):
+        f2, sf2, n2 = cbig.run()
+        failing, shard_fail, nshards = failing + f2, shard_fail + sf2, nshards + n2
+    n_hist = len(cs) + len(cbig)
+    run.oblige(f"correspondence:file-dataset ({nshards} shards, {n_hist} histories)", not shard_fail, str(shard_fail)[:1500])
     run.oblige("assumed: every observed torch.randperm answer is a permutation and a function of the generator state",
                not assumption_bad, json.dumps(assumption_bad[:2])[:1500])
     run.oblige("impl-oracle:file-dataset (exactly once, batch sizes, alignment, equal seeds, fast-forward, pickle)", not oracle_hits,
                "; ".join(h[1][0] for h in oracle_hits[:5]))
     run.oblige("correspondence:file-dataset no exception escapes construction / iteration / pickling", not crashes,
                "; ".join(c[1] for c in crashes[:3]))
-    run.count(len(cs), nontriv,
+    run.count(n_hist, nontriv,
               "one evaluation = one usage history (construct, then iter / take k / fastforward n / pickle round-trip) of xformer.data.Dataset "
               "on a generated file; every yielded batch (all fields, nested lists), the dtypes after load and every observed randperm answer "
               "compared with / validated by the model inside Coq; distinct by hash of (fields, batch_size, batches, seed, history); "
